@@ -17,7 +17,8 @@ Pool / history format (plain JSON, integers are identities):
                       "headers":"default"|{"flat":[cid..]}|{"nested":[[cid|null..]..]},
                       "page":cid|null,"title":..,"subline":..,"footnote":..,"source":..,
                       "page_header":..,"page_footer":..,"figure":..}..]}
-  history = {"ops":[["construct",slot,did],["encode",slot],["twice",slot],["drop",slot],["lookup",name]..],
+  history = {"ops":[["construct",slot,did],["encode",slot],["twice",slot],["drop",slot],["lookup",name],
+                    ["measure",{"text":..,"font":..,"font_size":..,"unit":..,"dpi":..}]..],     (public get_string_width)
              "target":did, "reuse":slot|null, "target_twice":bool}
 Components are created once per process and handed to every document that names them: that is the
 sharing the property talks about.
@@ -30,6 +31,7 @@ import hashlib
 import io
 import json
 import os
+import re
 import sys
 import tempfile
 from pathlib import Path
@@ -40,6 +42,9 @@ OTHER_ARGS = dict(title="rtf_title", subline="rtf_subline", footnote="rtf_footno
 BODY_COLOR_FIELDS = ("text_color", "text_background_color", "border_color_left", "border_color_right",
                      "border_color_top", "border_color_bottom", "border_color_first", "border_color_last")
 TEXT_COLOR_FIELDS = ("text_color", "text_background_color")
+
+
+_PAGE = re.compile(r"\\page(?![a-z])")
 
 
 def sha(s: str) -> str:
@@ -171,7 +176,7 @@ def encode_obs(doc, keep=False):
             s = doc.rtf_encode()
     except Exception as e:  # noqa: BLE001
         return dict(cls=exc_class(e), msg=str(e)[:200]), None
-    return dict(ok=sha(s), len=len(s)), (s if keep else None)
+    return dict(ok=sha(s), len=len(s), pages=len(_PAGE.findall(s)) + 1), (s if keep else None)
 
 
 def internals():
@@ -204,6 +209,16 @@ def lookup(name):
             return "invalid"
     except Exception:  # noqa: BLE001
         return "unavailable"
+
+
+def measure(q):
+    """a direct call of the public `rtflite.get_string_width` (what pagination uses for every cell)"""
+    import rtflite as rtf
+
+    try:
+        return dict(val=float(rtf.get_string_width(**q)))
+    except Exception as e:  # noqa: BLE001
+        return dict(cls=exc_class(e), msg=str(e)[:200])
 
 
 def doc_widths(doc):
@@ -262,6 +277,8 @@ def run_history(task):
                 obs.append(dict(kind=kind))
             elif kind == "lookup":
                 obs.append(dict(kind=kind, idx=lookup(op[1])))
+            elif kind == "measure":
+                obs.append(dict(kind=kind, **measure(op[1])))
         # the target
         tgt = dict()
         doc = None
